@@ -97,9 +97,14 @@ class Violation:
 
 
 class Ctx:
-    def __init__(self, timeout_ms=60000, max_decisions=20000, max_paths=200000, max_concretise=300):
+    def __init__(self, timeout_ms=60000, max_decisions=20000, max_paths=200000, max_concretise=300, strategy="incremental"):
         self.solver = z3.Solver()
         self.solver.set("timeout", timeout_ms)
+        self.timeout_ms = timeout_ms
+        self.strategy = strategy
+        self.auto_ms = 1500
+        self.has_uf = False
+        self._last_model = None
         self.decisions = []  # list[Decision] of the current path
         self.pos = 0
         self.frozen_until = -1
@@ -121,20 +126,47 @@ class Ctx:
 
     # ---- solver helpers ------------------------------------------------------------------
     def _check(self, *extra):
+        """sat? of path condition + extra.  The model of a sat answer is kept in self._last_model.
+        strategy 'incremental': one solver with push/pop; 'oneshot': a fresh SAT-based QF_BV solver per query (much faster on
+        arithmetic-heavy conditions); 'auto': incremental with a short timeout, then oneshot."""
         t0 = time.time()
         self.stats.queries += 1
-        r = self.solver.check(*extra)
-        self.stats.solver_s += time.time() - t0
+        self._last_model = None
+        try:
+            if self.strategy == "incremental":
+                r = self.solver.check(*extra)
+                why = self.solver.reason_unknown() if r == z3.unknown else ""
+                if r == z3.sat:
+                    self._last_model = self.solver.model()
+            else:
+                r = z3.unknown
+                if self.strategy == "auto":
+                    self.solver.set("timeout", self.auto_ms)
+                    r = self.solver.check(*extra)
+                    self.solver.set("timeout", self.timeout_ms)
+                    if r == z3.sat:
+                        self._last_model = self.solver.model()
+                if r == z3.unknown:
+                    s2 = z3.Tactic("qfbv").solver() if not self.has_uf else z3.Tactic("qfaufbv").solver()
+                    s2.set("timeout", self.timeout_ms)
+                    s2.add(self.solver.assertions())
+                    s2.add(*extra)
+                    r = s2.check()
+                    why = s2.reason_unknown() if r == z3.unknown else ""
+                    if r == z3.sat:
+                        self._last_model = s2.model()
+        finally:
+            self.stats.solver_s += time.time() - t0
         if r == z3.unknown:
             self.stats.unknown += 1
-            raise SolverUnknown(self.solver.reason_unknown())
+            raise SolverUnknown(why)
         return r == z3.sat
 
     def get_model(self):
         if self.model is None:
             if not self._check():
                 raise PathInfeasible("path condition unsat")
-            self.model = self.solver.model()
+            self.model = self._last_model
         return self.model
 
     def model_int(self, term):
@@ -186,7 +218,7 @@ class Ctx:
         if side is None:
             if self._check(t):
                 side = True
-                self.model = self.solver.model()
+                self.model = self._last_model
             else:
                 side = False
                 self.model = None
@@ -200,7 +232,7 @@ class Ctx:
         other = z3.Not(t) if side else t
         of = self._check(other)
         if of:
-            other_model = self.solver.model()
+            other_model = self._last_model
         d = Decision(side, of, t, other_model)
         self.decisions.append(d)
         self.pos += 1
@@ -210,6 +242,17 @@ class Ctx:
 
     def replaying(self):
         return self.pos <= self.frozen_until
+
+    def define(self, key, term):
+        """Name a term by a variable (shared per path by key) so that the simplifier cannot rewrite its uses apart."""
+        d = self.path_data.setdefault("defs", {})
+        v = d.get(key)
+        if v is None:
+            v = z3.BitVec(self.fresh_name("def"), term.size())
+            d[key] = v
+            if not self.replaying():
+                self.solver.add(v == term)
+        return v
 
     def assume(self, t):
         if isinstance(t, bool):
@@ -229,7 +272,7 @@ class Ctx:
         if not self._check():
             self.stats.infeasible += 1
             raise PathInfeasible("assumption unsat")
-        self.model = self.solver.model()
+        self.model = self._last_model
 
     def check(self, cond, label, detail=None):
         """Assertion: is there a value on this path with cond false?  Does not fork."""
@@ -251,7 +294,7 @@ class Ctx:
         if z3.is_true(t):
             return True
         if self._check(z3.Not(t)):
-            self._violation(label, self.solver.model(), detail)
+            self._violation(label, self._last_model, detail)
             return False
         return True
 
@@ -303,6 +346,7 @@ class Ctx:
         if f is None:
             f = z3.Function(name, *sig)
             self.ufs[k] = f
+            self.has_uf = True
         return f
 
 
@@ -413,63 +457,185 @@ def implies(a, b):
 # SymInt
 
 
-def _bv(v):
-    return z3.BitVecVal(v, W)
+def _bv(v, w=None):
+    return z3.BitVecVal(v, W if w is None else w)
 
 
 def _bitlen_bound(lo, hi):
     return max(abs(lo), abs(hi)).bit_length()
 
 
-class SymInt:
-    """Python int semantics over a signed W-bit vector with a conservative [lo, hi] interval."""
-    __slots__ = ("t", "lo", "hi")
+def _width_for(lo, hi):
+    """Minimal width and signedness holding every value of [lo, hi]."""
+    if lo >= 0:
+        return max(1, hi.bit_length()), False
+    return max((-lo - 1).bit_length(), hi.bit_length()) + 1, True
 
-    def __init__(self, t, lo, hi):
+
+def _resize(t, signed, k):
+    """Value-preserving when k is large enough for the value; otherwise the low k bits."""
+    w = t.size()
+    if w == k:
+        return t
+    if w > k:
+        return z3.Extract(k - 1, 0, t)
+    return z3.SignExt(k - w, t) if signed else z3.ZeroExt(k - w, t)
+
+
+class SymInt:
+    """Python int semantics over a bit-vector of minimal width for the tracked interval [lo, hi].
+    n: z3 term of width w; read as signed iff lo < 0.  The interval is conservative, so modular arithmetic at the
+    result's width is exact; an interval beyond 2^(W-2) raises WidthExceeded."""
+    __slots__ = ("_n", "lo", "hi", "signed", "lin")
+
+    def __init__(self, t, lo, hi, lin=None):
         if lo < -_MAXMAG or hi > _MAXMAG:
             c = CUR[0]
             if c is not None:
                 c.stats.width_exceeded += 1
             raise WidthExceeded("magnitude [%d, %d] exceeds width %d" % (lo, hi, W))
-        self.t = t
+        k, s = _width_for(lo, hi)
+        # t may be wider (legacy W-bit terms) or narrower; its own reading is by the same signedness
+        self._n = None if t is None else (_resize(t, s, k) if t.size() != k else t)
         self.lo = lo
         self.hi = hi
+        self.signed = s
+        # lin: None for an atom, else (const, ((atom_id, coeff, atom), ...)) - a linear combination kept symbolic so that
+        # sums are materialised in one canonical order whatever order the code under test added them in
+        self.lin = lin
+
+    @property
+    def n(self):
+        if self._n is None:
+            const, terms = self.lin
+            k = self.n_width()
+            acc = None
+            for _, coeff, atom in terms:
+                x = _resize(atom.n, atom.signed, k)
+                if coeff != 1:
+                    x = x * z3.BitVecVal(coeff, k)
+                acc = x if acc is None else acc + x
+            if const != 0 or acc is None:
+                cv = z3.BitVecVal(const, k)
+                acc = cv if acc is None else acc + cv
+            if len(terms) >= 3 and CUR[0] is not None:
+                acc = CUR[0].define(("lin", const, tuple((a, cf) for a, cf, _ in terms), k), acc)
+            self._n = acc
+        return self._n
+
+    @n.setter
+    def n(self, v):
+        self._n = v
+
+    def n_width(self):
+        return _width_for(self.lo, self.hi)[0]
+
+    def _lin(self):
+        """(const, {atom_id: (coeff, atom)})"""
+        if self.lin is not None:
+            return self.lin[0], {a: (c, at) for a, c, at in self.lin[1]}
+        return 0, {self._n.get_id(): (1, self)}
+
+    @staticmethod
+    def _from_lin(const, terms, lo, hi):
+        terms = {a: ca for a, ca in terms.items() if ca[0] != 0}
+        if not terms:
+            return const
+        if lo < -_MAXMAG or hi > _MAXMAG:
+            c = CUR[0]
+            if c is not None:
+                c.stats.width_exceeded += 1
+            raise WidthExceeded("magnitude [%d, %d] exceeds width %d" % (lo, hi, W))
+        if lo == hi:
+            return lo
+        if len(terms) == 1 and const == 0:
+            (a, (cf, at)), = terms.items()
+            if cf == 1:
+                if at.lo >= lo and at.hi <= hi:
+                    return at
+        tt = tuple(sorted(((a, cf, at) for a, (cf, at) in terms.items()), key=lambda x: x[0]))
+        return SymInt(None, lo, hi, lin=(const, tt))
+
+    @staticmethod
+    def _lin_add(a, b, sign, lo, hi):
+        ca, ta = a._lin()
+        cb, tb = b._lin()
+        out = dict(ta)
+        for k, (cf, at) in tb.items():
+            if k in out:
+                out[k] = (out[k][0] + sign * cf, at)
+            else:
+                out[k] = (sign * cf, at)
+        return SymInt._from_lin(ca + sign * cb, out, lo, hi)
+
+    @property
+    def t(self):
+        """W-bit signed view (for code that mixes values of different widths)."""
+        return _resize(self.n, self.signed, W)
+
+    def at(self, k, signed=None):
+        """k-bit view; exact if k is wide enough for [lo, hi] under the requested reading, else low bits."""
+        return _resize(self.n, self.signed, k)
+
+    def swidth(self):
+        """width needed to hold the value as a signed vector"""
+        return self.n.size() + (0 if self.signed else 1)
 
     # -- construction helpers
     @staticmethod
     def mk(t, lo, hi):
         if lo == hi:
             return lo
-        t = z3.simplify(t)
-        if z3.is_bv_value(t):
-            v = t.as_signed_long()
-            return v
-        return SymInt(t, lo, hi)
+        x = SymInt(t, lo, hi)
+        n = z3.simplify(x._n)
+        if z3.is_bv_value(n):
+            return n.as_signed_long() if x.signed else n.as_long()
+        x._n = n
+        return x
 
     @staticmethod
     def coerce(o):
-        """-> (term, lo, hi) or None"""
+        """-> (W-bit term, lo, hi) or None   (legacy helper)"""
+        c = SymInt.lift(o)
+        if c is None:
+            return None
+        return c.t, c.lo, c.hi
+
+    @staticmethod
+    def lift(o):
         if isinstance(o, SymInt):
-            return o.t, o.lo, o.hi
+            return o
         if isinstance(o, bool):
-            return _bv(int(o)), int(o), int(o)
+            o = int(o)
         if isinstance(o, int):
             if abs(o) > _MAXMAG:
                 raise WidthExceeded("constant %d" % o)
-            return _bv(o), o, o
+            return SymInt(None, o, o, lin=(o, ()))
         if isinstance(o, SymBool):
-            return z3.If(o.t, _bv(1), _bv(0)), 0, 1
+            return SymInt(z3.If(o.t, z3.BitVecVal(1, 1), z3.BitVecVal(0, 1)), 0, 1)
         return None
+
+    @staticmethod
+    def _arith(a, b, fn, lo, hi):
+        if lo < -_MAXMAG or hi > _MAXMAG:
+            c = CUR[0]
+            if c is not None:
+                c.stats.width_exceeded += 1
+            raise WidthExceeded("magnitude [%d, %d] exceeds width %d" % (lo, hi, W))
+        if lo == hi:
+            return lo
+        k, _ = _width_for(lo, hi)
+        return SymInt.mk(fn(a.at(k), b.at(k)), lo, hi)
 
     # -- arithmetic
     def __add__(self, o):
         from .symfloat import SymFloat
         if isinstance(o, (float, SymFloat)):
             return SymFloat.from_int(self) + o
-        c = SymInt.coerce(o)
+        c = SymInt.lift(o)
         if c is None:
             return NotImplemented
-        return SymInt.mk(self.t + c[0], self.lo + c[1], self.hi + c[2])
+        return SymInt._lin_add(self, c, 1, self.lo + c.lo, self.hi + c.hi)
 
     __radd__ = __add__
 
@@ -477,22 +643,22 @@ class SymInt:
         from .symfloat import SymFloat
         if isinstance(o, (float, SymFloat)):
             return SymFloat.from_int(self) - o
-        c = SymInt.coerce(o)
+        c = SymInt.lift(o)
         if c is None:
             return NotImplemented
-        return SymInt.mk(self.t - c[0], self.lo - c[2], self.hi - c[1])
+        return SymInt._lin_add(self, c, -1, self.lo - c.hi, self.hi - c.lo)
 
     def __rsub__(self, o):
         from .symfloat import SymFloat
         if isinstance(o, (float, SymFloat)):
             return o - SymFloat.from_int(self)
-        c = SymInt.coerce(o)
+        c = SymInt.lift(o)
         if c is None:
             return NotImplemented
-        return SymInt.mk(c[0] - self.t, c[1] - self.hi, c[2] - self.lo)
+        return SymInt._lin_add(c, self, -1, c.lo - self.hi, c.hi - self.lo)
 
     def __neg__(self):
-        return SymInt.mk(-self.t, -self.hi, -self.lo)
+        return SymInt._lin_add(SymInt.lift(0), self, -1, -self.hi, -self.lo)
 
     def __pos__(self):
         return self
@@ -500,7 +666,7 @@ class SymInt:
     def __abs__(self):
         if self.lo >= 0:
             return self
-        return SymInt.mk(z3.If(self.t < 0, -self.t, self.t), 0, max(abs(self.lo), abs(self.hi)))
+        return sym_ite(self < 0, -self, self)
 
     def __mul__(self, o):
         from .symfloat import SymFloat
@@ -508,71 +674,79 @@ class SymInt:
             return SymFloat.from_int(self) * o
         if isinstance(o, (bytes, bytearray, str, list, tuple)):
             return o * int(self)
-        c = SymInt.coerce(o)
+        c = SymInt.lift(o)
         if c is None:
             return NotImplemented
-        ps = [self.lo * c[1], self.lo * c[2], self.hi * c[1], self.hi * c[2]]
-        return SymInt.mk(self.t * c[0], min(ps), max(ps))
+        ps = [self.lo * c.lo, self.lo * c.hi, self.hi * c.lo, self.hi * c.hi]
+        if c.lo == c.hi:
+            k0 = c.lo
+            cst, terms = self._lin()
+            return SymInt._from_lin(cst * k0, {a: (cf * k0, at) for a, (cf, at) in terms.items()}, min(ps), max(ps))
+        return SymInt._arith(self, c, lambda x, y: x * y, min(ps), max(ps))
 
     __rmul__ = __mul__
 
-    def _divmod(self, a, b):
-        # Python floor semantics from z3's truncating signed division
-        (at, alo, ahi), (bt, blo, bhi) = a, b
+    @staticmethod
+    def _divmod(a, b):
+        """Python floor division and modulo; a, b SymInt (lifted)."""
+        blo, bhi = b.lo, b.hi
         if blo <= 0 <= bhi:
             if blo == bhi:
                 raise ZeroDivisionError("integer division or modulo by zero")
-            if ctx().decide(bt == 0):
+            if ctx().decide(b.n == 0):
                 raise ZeroDivisionError("integer division or modulo by zero")
-            if bhi <= 0:
+            if bhi == 0:
                 bhi = -1
-            if blo >= 0:
+            if blo == 0:
                 blo = 1
-        if alo >= 0 and blo > 0:
-            q = z3.UDiv(at, bt)
-            r = z3.URem(at, bt)
-            return (q, alo // bhi, ahi // blo), (r, 0, min(ahi, bhi - 1))
+        if a.lo >= 0 and blo > 0:
+            k = max(a.n.size(), b.n.size())
+            at, bt = a.at(k), b.at(k)
+            q = SymInt.mk(z3.UDiv(at, bt), a.lo // bhi, a.hi // blo)
+            r = SymInt.mk(z3.URem(at, bt), 0, min(a.hi, bhi - 1))
+            return q, r
+        k = max(a.swidth(), b.swidth()) + 1
+        at, bt = a.at(k), b.at(k)
         q0 = at / bt  # signed, truncating
         r0 = z3.SRem(at, bt)
         adj = z3.And(r0 != 0, (r0 < 0) != (bt < 0))
-        q = z3.If(adj, q0 - 1, q0)
-        r = z3.If(adj, r0 + bt, r0)
-        mag = max(abs(alo), abs(ahi)) + 1
+        mag = max(abs(a.lo), abs(a.hi)) + 1
         bm = max(abs(blo), abs(bhi))
-        return (q, -mag, mag), (r, -bm, bm)
+        q = SymInt.mk(z3.If(adj, q0 - 1, q0), -mag, mag)
+        r = SymInt.mk(z3.If(adj, r0 + bt, r0), -bm, bm)
+        return q, r
 
     def __floordiv__(self, o):
-        c = SymInt.coerce(o)
+        c = SymInt.lift(o)
         if c is None:
             return NotImplemented
-        q, _ = self._divmod((self.t, self.lo, self.hi), c)
-        return SymInt.mk(*q)
+        return SymInt._divmod(self, c)[0]
 
     def __rfloordiv__(self, o):
-        c = SymInt.coerce(o)
+        c = SymInt.lift(o)
         if c is None:
             return NotImplemented
-        q, _ = self._divmod(c, (self.t, self.lo, self.hi))
-        return SymInt.mk(*q)
+        return SymInt._divmod(c, self)[0]
 
     def __mod__(self, o):
-        c = SymInt.coerce(o)
+        c = SymInt.lift(o)
         if c is None:
             return NotImplemented
-        _, r = self._divmod((self.t, self.lo, self.hi), c)
-        return SymInt.mk(*r)
+        return SymInt._divmod(self, c)[1]
 
     def __rmod__(self, o):
         if isinstance(o, (str, bytes)):
             return o % int(self)
-        c = SymInt.coerce(o)
+        c = SymInt.lift(o)
         if c is None:
             return NotImplemented
-        _, r = self._divmod(c, (self.t, self.lo, self.hi))
-        return SymInt.mk(*r)
+        return SymInt._divmod(c, self)[1]
 
     def __divmod__(self, o):
-        return self // o, self % o
+        c = SymInt.lift(o)
+        if c is None:
+            return NotImplemented
+        return SymInt._divmod(self, c)
 
     def __truediv__(self, o):
         from .symfloat import SymFloat
@@ -596,59 +770,69 @@ class SymInt:
         raise Unsupported("rpow")
 
     # -- shifts
+    @staticmethod
+    def _shl(a, s):
+        if s.lo < 0:
+            if s.hi < 0 or ctx().decide(s.n < 0 if s.signed else z3.BoolVal(False)):
+                raise ValueError("negative shift count")
+        if s.hi > W:
+            raise WidthExceeded("shift count up to %d" % s.hi)
+        slo = max(s.lo, 0)
+        cands = [a.lo << slo, a.lo << s.hi, a.hi << slo, a.hi << s.hi]
+        lo, hi = min(cands), max(cands)
+        if lo < -_MAXMAG or hi > _MAXMAG:
+            raise WidthExceeded("shift result")
+        if lo == hi:
+            return lo
+        k = max(_width_for(lo, hi)[0], 8)
+        return SymInt.mk(a.at(k) << _resize(s.n, False, k), lo, hi)
+
     def __lshift__(self, o):
-        c = SymInt.coerce(o)
+        c = SymInt.lift(o)
         if c is None:
             return NotImplemented
-        if c[1] < 0:
-            if c[2] < 0 or ctx().decide(c[0] < 0):
-                raise ValueError("negative shift count")
-        sh_hi = c[2]
-        if sh_hi > W:
-            raise WidthExceeded("shift count up to %d" % sh_hi)
-        lo = min(self.lo, self.lo << sh_hi)
-        hi = max(self.hi, self.hi << sh_hi)
-        return SymInt.mk(self.t << c[0], lo, hi)
+        return SymInt._shl(self, c)
 
     def __rlshift__(self, o):
-        c = SymInt.coerce(o)
+        c = SymInt.lift(o)
         if c is None:
             return NotImplemented
-        if self.lo < 0:
-            if self.hi < 0 or ctx().decide(self.t < 0):
+        return SymInt._shl(c, self)
+
+    @staticmethod
+    def _shr(a, s):
+        if s.lo < 0:
+            if s.hi < 0 or ctx().decide(s.n < 0 if s.signed else z3.BoolVal(False)):
                 raise ValueError("negative shift count")
-        if self.hi > W:
-            raise WidthExceeded("shift count up to %d" % self.hi)
-        a = c[1] << max(self.lo, 0), c[1] << self.hi, c[2] << max(self.lo, 0), c[2] << self.hi
-        return SymInt.mk(c[0] << self.t, min(a), max(a))
+        slo = max(s.lo, 0)
+        cands = [a.lo >> slo, a.lo >> s.hi, a.hi >> slo, a.hi >> s.hi]
+        k = max(a.n.size(), 8)
+        sh = s
+        if s.hi >= k:
+            # shifting by >= width: arithmetic shift by k-1 (sign fill) resp. logical shift by k (zero)
+            sh = SymInt.lift(sym_ite(s >= k, (k - 1) if a.signed else k, s))
+        st = _resize(sh.n, False, k)
+        at = a.at(k)
+        return SymInt.mk((at >> st) if a.signed else z3.LShR(at, st), min(cands), max(cands))
 
     def __rshift__(self, o):
-        c = SymInt.coerce(o)
+        c = SymInt.lift(o)
         if c is None:
             return NotImplemented
-        if c[1] < 0:
-            if c[2] < 0 or ctx().decide(c[0] < 0):
-                raise ValueError("negative shift count")
-        s_lo = max(c[1], 0)
-        s_hi = c[2]
-        cands = [self.lo >> s_lo, self.lo >> s_hi, self.hi >> s_lo, self.hi >> s_hi]
-        sh = c[0]
-        if s_hi >= W:
-            sh = z3.If(z3.UGE(sh, _bv(W - 1)), _bv(W - 1), sh)
-        return SymInt.mk(self.t >> sh, min(cands), max(cands))
+        return SymInt._shr(self, c)
 
     def __rrshift__(self, o):
-        c = SymInt.coerce(o)
+        c = SymInt.lift(o)
         if c is None:
             return NotImplemented
-        return SymInt(c[0], c[1], c[2]).__rshift__(self)
+        return SymInt._shr(c, self)
 
     # -- bit ops
     def _bitop(self, o, fn, kind):
-        c = SymInt.coerce(o)
+        c = SymInt.lift(o)
         if c is None:
             return NotImplemented
-        alo, ahi, blo, bhi = self.lo, self.hi, c[1], c[2]
+        alo, ahi, blo, bhi = self.lo, self.hi, c.lo, c.hi
         if kind == "and":
             if alo >= 0 and blo >= 0:
                 lo, hi = 0, min(ahi, bhi)
@@ -665,7 +849,7 @@ class SymInt:
                 lo, hi = 0, (1 << k) - 1
             else:
                 lo, hi = -(1 << k), (1 << k) - 1
-        return SymInt.mk(fn(self.t, c[0]), lo, hi)
+        return SymInt._arith(self, c, fn, lo, hi)
 
     def __and__(self, o):
         return self._bitop(o, lambda a, b: a & b, "and")
@@ -683,46 +867,50 @@ class SymInt:
     __rxor__ = __xor__
 
     def __invert__(self):
-        return SymInt.mk(~self.t, -self.hi - 1, -self.lo - 1)
+        return -self - 1
 
     # -- comparisons
     def _cmp(self, o, op):
         from .symfloat import SymFloat
         if isinstance(o, (float, SymFloat)):
             return SymFloat.compare_int(self, o, op)
-        c = SymInt.coerce(o)
+        c = SymInt.lift(o)
         if c is None:
             return NotImplemented
-        t, lo, hi = c
+        lo, hi = c.lo, c.hi
         if op == "lt":
             if self.hi < lo:
                 return True
             if self.lo >= hi:
                 return False
-            return mk_bool(self.t < t)
-        if op == "le":
+        elif op == "le":
             if self.hi <= lo:
                 return True
             if self.lo > hi:
                 return False
-            return mk_bool(self.t <= t)
-        if op == "gt":
+        elif op == "gt":
             if self.lo > hi:
                 return True
             if self.hi <= lo:
                 return False
-            return mk_bool(self.t > t)
-        if op == "ge":
+        elif op == "ge":
             if self.lo >= hi:
                 return True
             if self.hi < lo:
                 return False
-            return mk_bool(self.t >= t)
-        if op == "eq":
+        elif op == "eq":
             if self.hi < lo or self.lo > hi:
                 return False
-            return mk_bool(self.t == t)
-        raise AssertionError(op)
+        if not self.signed and not c.signed:
+            k = max(self.n.size(), c.n.size())
+            a, b = self.at(k), c.at(k)
+            t = {"lt": z3.ULT, "le": z3.ULE, "gt": z3.UGT, "ge": z3.UGE, "eq": lambda x, y: x == y}[op](a, b)
+        else:
+            k = max(self.swidth(), c.swidth())
+            a, b = self.at(k), c.at(k)
+            t = {"lt": lambda x, y: x < y, "le": lambda x, y: x <= y, "gt": lambda x, y: x > y,
+                 "ge": lambda x, y: x >= y, "eq": lambda x, y: x == y}[op](a, b)
+        return mk_bool(t)
 
     def __lt__(self, o):
         return self._cmp(o, "lt")
@@ -749,15 +937,16 @@ class SymInt:
     def __bool__(self):
         if self.lo > 0 or self.hi < 0:
             return True
-        return ctx().decide(self.t != 0)
+        return ctx().decide(self.n != 0)
 
     # -- concretisation (value forking)
     def concretise(self):
         c = ctx()
         n = 0
         while True:
-            v = c.get_model().eval(self.t, model_completion=True).as_signed_long()
-            if c.decide(self.t == v):
+            v = c.get_model().eval(self.n, model_completion=True)
+            v = v.as_signed_long() if self.signed else v.as_long()
+            if c.decide(self.n == v):
                 return v
             n += 1
             if n > c.max_concretise:
@@ -797,19 +986,19 @@ class SymInt:
         if signed:
             raise Unsupported("signed to_bytes")
         if self.lo < 0:
-            if self.hi < 0 or ctx().decide(self.t < 0):
+            if self.hi < 0 or ctx().decide(self.n < 0):
                 raise OverflowError("can't convert negative int to unsigned")
         lim = 1 << (8 * length)
         if self.hi >= lim:
-            if max(self.lo, 0) >= lim or ctx().decide(self.t >= _bv(lim) if lim < _MAXMAG else z3.BoolVal(False)):
+            if max(self.lo, 0) >= lim or (self >= lim):
                 raise OverflowError("int too big to convert")
+        k = max(8 * length, self.n.size())
+        t = _resize(self.n, self.signed, k)
         els = []
         for i in range(length):  # big endian
             bit = 8 * (length - 1 - i)
-            if bit + 8 <= W:
-                els.append(z3.simplify(z3.Extract(bit + 7, bit, self.t)))
-            else:
-                els.append(0)
+            e = z3.simplify(z3.Extract(bit + 7, bit, t))
+            els.append(e.as_long() if z3.is_bv_value(e) else e)
         if byteorder == "little":
             els.reverse()
         elif byteorder != "big":
@@ -832,15 +1021,14 @@ def sym_int(name, lo, hi, signed=False):
     v = z3.BitVec(name, bits)
     c.inputs[name] = ("int", v)
     c.input_signed[name] = lo < 0
-    t = z3.SignExt(W - bits, v) if lo < 0 else z3.ZeroExt(W - bits, v)
     nat_lo = -(1 << (bits - 1)) if lo < 0 else 0
     nat_hi = (1 << (bits - 1)) - 1 if lo < 0 else (1 << bits) - 1
-    x = SymInt(t, lo, hi)
+    x = SymInt(v, nat_lo if lo < 0 else 0, nat_hi)
     if lo > nat_lo:
-        c.assume(t >= _bv(lo))
+        c.assume(x >= lo)
     if hi < nat_hi:
-        c.assume(t <= _bv(hi))
-    return x
+        c.assume(x <= hi)
+    return SymInt(x.n, lo, hi)
 
 
 def sym_bool(name):
@@ -857,7 +1045,7 @@ def record_const(name, value):
 def fresh_int(prefix, bits):
     c = ctx()
     v = z3.BitVec(c.fresh_name(prefix), bits)
-    return SymInt(z3.ZeroExt(W - bits, v), 0, (1 << bits) - 1)
+    return SymInt(v, 0, (1 << bits) - 1)
 
 
 def is_sym(x):
@@ -884,9 +1072,10 @@ class Result:
 
 
 def explore(fn, *, timeout_ms=60000, max_paths=200000, max_decisions=20000, max_violations=5,
-            max_seconds=None, sample_paths=3, max_concretise=300):
+            max_seconds=None, sample_paths=3, max_concretise=300, strategy="incremental"):
     """Run fn() once per feasible path.  fn may call assume/check and returns an optional sample dict."""
-    c = Ctx(timeout_ms=timeout_ms, max_decisions=max_decisions, max_paths=max_paths, max_concretise=max_concretise)
+    c = Ctx(timeout_ms=timeout_ms, max_decisions=max_decisions, max_paths=max_paths, max_concretise=max_concretise,
+            strategy=strategy)
     res = Result()
     prev = CUR[0]
     CUR[0] = c
@@ -963,8 +1152,10 @@ def sym_ite(c, a, b):
     """if-then-else over ints without forking."""
     if isinstance(c, bool):
         return a if c else b
-    ca, cb = SymInt.coerce(a), SymInt.coerce(b)
-    return SymInt.mk(z3.If(c.t, ca[0], cb[0]), min(ca[1], cb[1]), max(ca[2], cb[2]))
+    ca, cb = SymInt.lift(a), SymInt.lift(b)
+    lo, hi = min(ca.lo, cb.lo), max(ca.hi, cb.hi)
+    k, s = _width_for(lo, hi)
+    return SymInt.mk(z3.If(c.t, _resize(ca.n, ca.signed, k), _resize(cb.n, cb.signed, k)), lo, hi)
 
 
 def sym_max(a, b):
